@@ -62,7 +62,7 @@ func (c StepCase) String() string {
 	return fmt.Sprintf("%s parked at pass %d of %s", c.Victim, c.Skip+1, c.Site)
 }
 
-var StepVictims = []string{"join", "leave", "switch", "delete", "lastleave", "create", "compadd-vs-delete", "compadd-vs-leave", "action-vs-delete", "action-vs-leave", "action-vs-action", "compupd-vs-unsub", "compadd-vs-compadd"}
+var StepVictims = []string{"join", "leave", "switch", "delete", "lastleave", "create", "compadd-vs-delete", "compadd-vs-leave", "action-vs-delete", "action-vs-leave", "action-vs-action", "compupd-vs-unsub", "compadd-vs-compadd", "customto-vs-customto"}
 
 // stepSiteOK: points on the victim's own path; points that every connection
 // or the frame worker pass all the time would park somebody else.
@@ -195,6 +195,13 @@ func stepSetup(p *sut.Proc, victim string) *stepEnv {
 	case "action-vs-action", "compadd-vs-compadd":
 		_, _, err = v.Join(en.sid)
 		must(err)
+	case "customto-vs-customto":
+		_, _, err = v.Join(en.sid)
+		must(err)
+		o := scen.MustDial(p, "vod")
+		en.o = o
+		_, _, err = o.Join(en.sid)
+		must(err)
 	case "compupd-vs-unsub":
 		// a second subscriber of the type, which unsubscribes while the victim's
 		// update is on its way to the subscribers
@@ -287,6 +294,8 @@ func (en *stepEnv) fire(victim string) {
 		v.Close()
 	case "compadd-vs-delete", "compadd-vs-leave":
 		must(v.Send(&hagallpb.EntityComponentAddRequest{Type: d.TCompAddReq, Timestamp: d.NewTag(), RequestId: v.NextReqID(), EntityComponentTypeId: en.t2, EntityId: en.eO, Data: []byte("late")}))
+	case "customto-vs-customto":
+		must(v.Send(&hagallpb.CustomMessage{Type: d.TCustom, Timestamp: d.NewTag(), ParticipantIds: []uint32{en.w.PID, en.m.PID}, Body: []byte("victim-to-witness")}))
 	case "compadd-vs-compadd":
 		// the same (type, entity) the mutator adds meanwhile: one of the two is a conflict
 		must(v.Send(&hagallpb.EntityComponentAddRequest{Type: d.TCompAddReq, Timestamp: d.NewTag(), RequestId: v.NextReqID(), EntityComponentTypeId: en.t2, EntityId: en.e0, Data: []byte("by-victim")}))
@@ -348,6 +357,26 @@ func (en *stepEnv) interfere(victim string) (err error) {
 		return
 	}
 	m := en.m
+	if victim == "customto-vs-customto" {
+		// another addressed message in the same session, to somebody else, three times
+		for k := 0; k < 3; k++ {
+			if err = m.Custom([]byte("mutator-to-other"), en.o.PID, en.o.PID); err != nil {
+				return
+			}
+		}
+		if _, err = m.Barrier(); err != nil {
+			return
+		}
+	}
+	if victim == "compadd-vs-compadd" {
+		// first of all (the victim may hold the entity read lock, which the rest of
+		// the script has to wait for): the same key, added by somebody else
+		var a *d.Event
+		if a, err = m.AddComp(en.t2, en.e0, "by-mutator"); err != nil {
+			return
+		}
+		en.mutatorAddOK = a != nil && a.Type == d.TCompAddResp
+	}
 	if en.eN, err = m.AddEntity(true, 9); err != nil {
 		return
 	}
@@ -395,13 +424,6 @@ func (en *stepEnv) interfere(victim string) (err error) {
 	if victim == "join" {
 		en.x.Close()
 		departed(en.x, "the extra member")
-	}
-	if victim == "compadd-vs-compadd" {
-		var a *d.Event
-		if a, err = m.AddComp(en.t2, en.e0, "by-mutator"); err != nil {
-			return
-		}
-		en.mutatorAddOK = a != nil && a.Type == d.TCompAddResp
 	}
 	if victim == "compupd-vs-unsub" {
 		var a *d.Event
@@ -986,6 +1008,36 @@ func (en *stepEnv) judgeSession(c StepCase, res *StepResult, snap *scen.Snapshot
 	}
 	if strings.HasSuffix(c.Victim, "-vs-leave") {
 		departedChecks("the owner that left while the victim was attaching to its entity", en.o, en.eO, 0)
+	}
+	if c.Victim == "customto-vs-customto" {
+		cnt := func(cl *scen.C, body string) int {
+			n := 0
+			for _, e := range cl.LogCopy() {
+				if cm, ok := e.M.(*hagallpb.CustomMessageBroadcast); ok && string(cm.Body) == body {
+					n++
+				}
+			}
+			return n
+		}
+		for _, x := range []struct {
+			who  string
+			c    *scen.C
+			body string
+			want int
+		}{{"the witness (addressee of the victim's message)", w, "victim-to-witness", 1}, {"the witness", w, "mutator-to-other", 0},
+			{"the other member (addressee of the mutator's messages)", en.o, "mutator-to-other", 3}, {"the other member", en.o, "victim-to-witness", 0},
+			{"the mutator (second addressee of the victim's message)", en.m, "victim-to-witness", 1}, {"the victim", v, "mutator-to-other", 0}} {
+			if x.c == v && c.Abort {
+				continue
+			}
+			want := x.want
+			if x.body == "victim-to-witness" && c.Abort && want == 1 {
+				continue // the victim's connection was reset: its message may or may not have been handled
+			}
+			if got := cnt(x.c, x.body); got != want {
+				res.Findings = append(res.Findings, sf([]string{"C14", "C02"}, "custom/addressed-delivery", c, "%s received the addressed custom message %q %d times (want %d): two addressed messages sent in one session at the same time", x.who, x.body, got, want))
+			}
+		}
 	}
 	if c.Victim == "compadd-vs-compadd" && !c.Abort {
 		victimOK := false
